@@ -132,8 +132,13 @@ def emitLoop (e : Enc) (tot : Nat) : Nat → EncSt → Option (List Sym)
           (emitLoop e tot fuel
             { st with win := win', idx := idx + 1, srcSent := srcSent, sent := st.sent + 1 }).map (sym :: ·)
 
-def emitFuel (e : Enc) : Nat :=
-  e.ks.foldl (fun a k => a + shardsOf e.scheme k e.p + 1) 0 + e.p + 3
+/-- shards (+1 for the lazy removal) of the blocks `0 .. n-1` -/
+def fuelOf (e : Enc) : Nat → Nat
+  | 0 => 0
+  | n+1 => fuelOf e n + shardsOf e.scheme (e.ks.getD n 0) e.p + 1
+
+/-- iterations that suffice for one transfer (`emit_terminates`) -/
+def emitFuel (e : Enc) : Nat := fuelOf e e.ks.size + e.p + 3
 
 def encInit : EncSt := { next := 0, readEnd := false, win := [], idx := 0, srcSent := 0, sent := 0 }
 
@@ -353,7 +358,8 @@ def settle (dec : (k p : Nat) → List Nat → Bool) (o : ObjCfg) (rx : ORx) : P
 
 /-- `push_to_block2` for one symbol of an object whose OTI is known -/
 def pushCore (dec : (k p : Nat) → List Nat → Bool) (rc : RxCfg) (o : ObjCfg) (rx : ORx) (s : Sym) : PushRes :=
-  if o.ks.isEmpty then { rx := rx, term := .completed }           -- transfer_length == 0: complete(now)
+  -- transfer_length == 0: complete(now), once the FDT is attached and the writer exists (D14 repaired, /repo 7ec1ac7)
+  if o.ks.isEmpty then { rx := rx, term := if rx.attached then .completed else .receiving }
   else if s.sbn < rx.written then { rx := rx, term := .receiving } -- already completed
   else if s.sbn - rx.written > rc.maxLook then { rx := rx, term := .error }
   else if blockDone dec o.ks o.p rx.got s.sbn then { rx := rx, term := .receiving }
